@@ -1,6 +1,10 @@
 package node
 
-import "fmt"
+import (
+	"fmt"
+
+	hg "github.com/mosaicnetworks/babble/src/hashgraph"
+)
 
 // C06 (partial, bounded system level) — liveness under fair gossip.  Four real
 // cores.  Adversarial prefix: 20 pull exchanges among all four, each puller
@@ -164,5 +168,87 @@ func VerifHarness_C06_O2() {
 		panic(err)
 	}
 	s.fairPhaseAndCheck([]int{0, 1, 2}, 12)
+	verifReach("end")
+}
+
+// C06/O3 (= C05/O5) — a lagging validator fast-forwards, then fair gossip.
+// Four real cores gossip (every puller submitting a transaction); validator 3
+// then lags while 0,1,2 carry on, so that it holds loaded events that are not
+// yet committed on its side, and it accepts one more transaction into its pool;
+// it resets itself from the anchor served by a chosen peer and everybody
+// gossips fairly (all-pairs cycles, no new submissions).  At the end all four
+// are idle with empty pools, and the transaction validator 3 had accepted
+// before the reset is committed exactly once on everybody's chain.
+func VerifHarness_C06_O3() {
+	s := verifNewSys(4)
+	for st := 0; st < 48; st++ {
+		to := st % 4
+		from := (to + 1 + (st/4)%3) % 4
+		if err := s.pull(from, to, -1); err != nil {
+			panic(fmt.Sprintf("phase A step %d: %v", st, err))
+		}
+	}
+	// everything validator 3 created is known to somebody else
+	if err := s.pullTx(3, 0, -1, false); err != nil {
+		panic(err)
+	}
+	lag := 12 + 9*verifChoice("longerLag", 2)
+	for st := 0; st < lag; st++ {
+		to := st % 3
+		from := (to + 1 + (st/3)%2) % 3
+		if err := s.pull(from, to, -1); err != nil {
+			panic(fmt.Sprintf("lag step %d: %v", st, err))
+		}
+	}
+	n3 := s.nodes[3]
+	if n3.c.hg.PendingLoadedEvents > 0 {
+		verifReach("lagging-node-holds-uncommitted-loaded-events")
+	}
+	pending := []byte{3, byte(s.txSeq[3])}
+	s.txSeq[3]++
+	n3.c.addTransactions([][]byte{pending})
+	server := verifChoice("servingPeer", 3)
+	block, frame, err := s.nodes[server].c.getAnchorBlockWithFrame()
+	if err != nil {
+		verifAssume(false)
+	}
+	delivered := len(n3.blocks)
+	if err := n3.c.fastForward(verifTransportCopyBlock(block), verifTransportCopyFrame(frame)); err != nil {
+		verifAssert("honest-anchor-accepted-by-the-lagging-node", false)
+		return
+	}
+	for c := 0; c < 14; c++ {
+		for to := 0; to < 4; to++ {
+			for from := 0; from < 4; from++ {
+				if from == to {
+					continue
+				}
+				if err := s.pullTx(from, to, -1, false); err != nil && to != 3 {
+					panic(fmt.Sprintf("fair cycle %d (%d<-%d): %v", c, to, from, err))
+				}
+			}
+		}
+	}
+	for i, nd := range s.nodes {
+		verifAssert(fmt.Sprintf("node%d-pool-empty-after-fair-gossip", i), len(nd.c.transactionPool) == 0)
+		verifAssert(fmt.Sprintf("node%d-idle-after-fair-gossip", i), !nd.c.busy())
+	}
+	count := func(blocks []hg.Block) int {
+		k := 0
+		for _, b := range blocks {
+			for _, tx := range b.Transactions() {
+				if string(tx) == string(pending) {
+					k++
+				}
+			}
+		}
+		return k
+	}
+	for i := 0; i < 3; i++ {
+		verifAssert("transaction-accepted-before-the-reset-committed-exactly-once", count(s.nodes[i].blocks) == 1)
+	}
+	verifAssert("transaction-accepted-before-the-reset-delivered-once-by-the-reset-node", count(n3.blocks[delivered:]) == 1)
+	full := &verifSys{nodes: s.nodes[:3], peers: s.peers, txSeq: s.txSeq}
+	full.checkInvariants(0)
 	verifReach("end")
 }
